@@ -348,6 +348,29 @@ pub fn run(tier: Tier) -> i32 {
             cases.push((s, mode, format!("v{first} stream with one RDH of the other version")));
         }
     }
+    // one very long HBF: page counters up to the 16-bit maximum (65 535 data pages + the stop page carrying 65 535),
+    // followed by an ordinary HBF; and the same one page shorter / with a deviation at the last pages
+    for (label, n_data, bump) in [("65535 data pages", 65_535u32, None), ("65534 data pages", 65_534, None), ("65535 data pages, page 65534 repeated", 65_535, Some(65_534u32))] {
+        let mut s: Vec<Rdh> = Vec::with_capacity(n_data as usize + 3);
+        let proto = base[0].clone();
+        for page in 0..=n_data {
+            let mut r = proto.clone();
+            r.pages_counter = page.min(65_535) as u16;
+            r.stop_bit = (page == n_data) as u8;
+            r.packet_counter = page as u8;
+            if Some(page) == bump {
+                r.pages_counter = (page - 1) as u16;
+            }
+            s.push(r);
+        }
+        for page in 0..2u16 {
+            let mut r = base[3].clone();
+            r.pages_counter = page;
+            r.stop_bit = page as u8;
+            s.push(r);
+        }
+        cases.push((s, Mode::All, format!("long HBF: {label}")));
+    }
     let results = par_map(&cases, |_, (s, m, _)| compare(s, *m));
     let mut flagged_cases = 0u64;
     for ((s, m, label), r) in cases.iter().zip(results.iter()) {
